@@ -33,7 +33,7 @@ EXPLAIN = ("observations of the real Optional/Any (has_value/valid flags of ever
            "storage alignment, sanitizer aborts) differ from the Lean model for which optional_refines, optional_lifetime, "
            "optional_aligned, any_refines, any_typed_get and any_total are proved")
 
-MUT_OPS = {"asown", "new", "newv", "mk", "newc", "newm", "newcu", "newmu", "del", "asv", "asvr", "asvu", "asc", "asm", "ascu", "asmu",
+MUT_OPS = {"empx", "asown", "new", "newv", "mk", "newc", "newm", "newcu", "newmu", "del", "asv", "asvr", "asvu", "asc", "asm", "ascu", "asmu",
            "emp", "rst", "env_get", "anew", "anewv", "acopy", "adel", "aasg", "aasv", "amut"}
 SRC_OPS = {"newc", "newm", "newcu", "newmu", "asc", "asm", "ascu", "asmu", "acopy", "aasg"}
 
@@ -121,6 +121,7 @@ def _opt_case(rng, t, length):
             elif q < 0.60 and have(others): c.append("asm %d %d" % (i, pick(others)))
             elif q < 0.70 and have(U): c.append("ascu %d %d" % (i, pick(U)))
             elif q < 0.78 and have(U): c.append("asmu %d %d" % (i, pick(U)))
+            elif q < 0.83 and t in ("str", "trk"): c.append("empx %d" % i)
             elif q < 0.88: c.append("emp %d %d" % (i, k))
             else: c.append("rst %d" % i)
         else:
